@@ -55,9 +55,11 @@ class Explorer:
         return c
 
 
-def attach(k: sk.Kernel, ex: Explorer):
-    """Route the kernel's scheduling decisions through the explorer."""
+def attach(k: sk.Kernel, ex: Explorer, io_points=False):
+    """Route the kernel's scheduling decisions through the explorer.  With io_points the virtual
+    send() becomes a preemption point too (the system call runs without the GIL)."""
     k.explorer = ex
+    k.io_hook = _at_point if io_points else None
 
     def chooser(cands):
         if not ex.armed or len(cands) < 2:
